@@ -125,7 +125,8 @@ structure St where
   base : KV := []
   height : Nat := 0                    -- committed height (genesis = 0)
   time : Nat := 0                      -- committed block time, relative to the genesis timestamp
-  last : Option (KV × Nat) := none     -- write set and time of the last executed block, if any
+  last : Option (KV × Nat × List Hash) := none   -- write set, time, cross hashes of the last executed block, if any
+  kept : Option (KV × Nat × List Hash) := none   -- the same for a held candidate block
 
 def parseSigners (s : String) : Option (List Addr) :=
   if s = "-" then some [] else (s.splitOn ",").mapM addrNamed
@@ -166,17 +167,28 @@ def step (s : St) (toks : List String) : St × String :=
     | some txs, some d =>
       let t := s.time + 1 + d
       let res := execBlock leafHash registry { base := s.base, height := s.height + 1, time := t } txs
-      ({ s with last := some (res.writeSet, t) }, showResult res)
+      ({ s with last := some (res.writeSet, t, res.crossHashes) }, showResult res)
     | _, _ => (s, "bad-op")
   | "nblk" :: dt :: rest =>
     -- a block of real native-contract transactions: evaluated on the implementation only (k identical executions);
     -- for the scripted contract's keys it is an empty block
     match dt.toNat? with
-    | some d => ({ s with last := some ([], s.time + 1 + d) }, "same n=" ++ toString rest.length)
+    | some d => ({ s with last := some ([], s.time + 1 + d, []) }, "same n=" ++ toString rest.length)
     | none => (s, "bad-op")
   | ["commit"] =>
     match s.last with
-    | some (ws, t) => ({ base := ws.persistInto s.base, height := s.height + 1, time := t, last := none }, "ok")
+    | some (ws, t, _) => ({ base := ws.persistInto s.base, height := s.height + 1, time := t, last := none, kept := none }, "ok")
+    | none => (s, "bad-op")
+  | ["keep"] =>
+    match s.last with
+    | some l => ({ s with kept := some l }, "ok")
+    | none => (s, "bad-op")
+  | ["submitkept"] =>
+    -- SubmitBlock(block, held result): the write set is persisted, the cross hashes and their root are stored
+    match s.kept with
+    | some (ws, t, xs) =>
+      ({ base := ws.persistInto s.base, height := s.height + 1, time := t, last := none, kept := none },
+       "ok x=" ++ join (xs.map Hex.toHex) ++ " r=" ++ Hex.toHex (crossRoot Sha256.sha256 xs))
     | none => (s, "bad-op")
   | _ => (s, "bad-op")
 
